@@ -41,6 +41,8 @@ type Array struct {
 	Own *Owner
 	// StrSrc, when set, means this array is the byte image of a (possibly symbolic) string.
 	StrSrc Value
+	// Enc, when set, means this array is the JSON encoding of a value (encoding/json model)
+	Enc *encoded
 }
 
 type Slice struct {
@@ -53,6 +55,9 @@ type MapEntry struct {
 	Deleted bool
 	// Touched is set once key or element has been read by the program (pristine-entry symmetry).
 	Touched bool
+	// Input: the entry was created as part of a symbolic input; OrigV is its value at creation
+	Input bool
+	OrigV Value
 }
 
 type Map struct {
@@ -64,6 +69,8 @@ type Map struct {
 	Unsized *lazyMapSpec
 	Acc     *access
 	Origin  *Lazy
+	// InputMap: created as a symbolic input; counterexamples render its ORIGINAL entries
+	InputMap bool
 }
 
 func (m *Map) live() []*MapEntry {
